@@ -41,7 +41,7 @@ var vestProfiles = map[string]vestProfile{
 	"C05": {Prop: "C05", Blocks: [2]int{10, 30}, MaxTxs: 5},
 	"C06": {Prop: "C06", Blocks: [2]int{12, 35}, MaxTxs: 5, Weights: map[string]int{"createPool": 3, "withdraw": 4, "send": 2, "createVestingAccount": 0, "split": 0, "move": 0, "delegate": 0}},
 	"C08": {Prop: "C08", Blocks: [2]int{10, 30}, MaxTxs: 5, Weights: map[string]int{"createPool": 2, "send": 4, "createVestingAccount": 3, "withdraw": 1, "split": 0, "move": 0, "delegate": 0}},
-	"C09": {Prop: "C09", Blocks: [2]int{10, 30}, MaxTxs: 5},
+	"C09": {Prop: "C09", Blocks: [2]int{10, 30}, MaxTxs: 5, Weights: map[string]int{"createPool": 1, "send": 3, "createVestingAccount": 3, "split": 3, "move": 2, "withdraw": 1, "delegate": 1, "sigCreateAccount": 3}},
 	"C17": {Prop: "C17", Blocks: [2]int{12, 35}, MaxTxs: 5, Weights: map[string]int{"createPool": 2, "send": 3, "split": 4, "move": 3, "delegate": 2, "withdraw": 1, "createVestingAccount": 1}},
 	"C18": {Prop: "C18", Blocks: [2]int{12, 35}, MaxTxs: 5, Weights: map[string]int{"createPool": 4, "withdraw": 4, "send": 2, "createVestingAccount": 0, "split": 0, "move": 0, "delegate": 0}},
 }
